@@ -448,7 +448,12 @@ def o_imputer(case, ctx):
     z = gen.build_series(v, case["start"], case["index_kind"])
     m = case["method"]
     val = 7.25 if m == "constant" else None
-    t = Imputer(method=m, value=val)
+    ph = case.get("placeholder")
+    if ph is not None:
+        # the gaps are marked by a placeholder value instead of NaN: same result
+        z = z.fillna(ph)
+        ctx.label("placeholder_marks_gaps")
+    t = Imputer(method=m, value=val, missing_values=ph)
     edge = bool(np.isnan(v[0]) or np.isnan(v[-1]))
     ctx.label(m)
     ctx.mark_nontrivial(edge or case["start"] != 0)
@@ -567,7 +572,8 @@ def imputer_cases(draw):
     return {"n": n, "seed": draw(st.integers(0, 10 ** 6)), "gaps": draw(st.lists(st.integers(0, 40), max_size=6)),
             "lead_gap": draw(st.booleans()), "trail_gap": draw(st.booleans()),
             "method": draw(st.sampled_from(["mean", "median", "constant", "ffill", "pad", "bfill", "backfill", "linear", "nearest", "drift"])),
-            "start": draw(gen.index_start), "index_kind": draw(gen.index_kind)}
+            "start": draw(gen.index_start), "index_kind": draw(gen.index_kind),
+            "placeholder": draw(st.sampled_from([None, None, -999.0, -12345.5]))}
 
 
 def subchecks():
